@@ -110,9 +110,9 @@ def run(r):
         "native endianness = little endian on the checked platform",
     ]
     r.assumptions += [
-        "bits/base: integers with |n| < 2^53 (documented precision warning), scalar base >= 2, base's row length large enough (b^len > |n|; violated by the implementation for exact powers: finding)",
-        "binary: rank <= 255, dims < 2^32, nesting <= 32, utf-8 length < 2^32, element count = product of shape (C05), the numeric casts satisfy the NumLaws record (proved for an integer instance, tied for f64)",
-        "bytes: integer formats with width > 1 byte (i8 is refuted), values within the format's range",
+        "bits/base: integers with |n| < 2^53 (documented precision warning), scalar base >= 2; base: the floor of the floating-point logarithm is at most one digit short (est_close) - the tie checks on every base case that the implementation's row length is exactly the number of digits the largest entry needs",
+        "binary (C18_from_binary_to_binary): values without map keys, rank <= 255, dims < 2^32, nesting <= 32, label valid UTF-8 and utf-8 lengths < 2^32, element count = product of shape (C05), the numeric casts satisfy num_laws (inhabited; tied for f64 by the cast cases); map keys are covered by the tie only",
+        "bytes: every integer format (u8 ... i128), values within the format's range",
     ]
     if not r.harness(["c18"]):
         return
@@ -150,6 +150,7 @@ def run(r):
     errs = sum(1 for c in used if c["k"].startswith("un") and c["out"] is None)
     r.coverage["tie"] = {"kind": "C", "cases": len(used), "skipped": len(cases) - len(used), "by_kind": kinds, "mismatches": len(mism),
                          "mismatch_by_kind": mk, "decoder_error_cases": errs,
+                         "base_cases_with_exact_row_length_checked": kinds.get("base", 0),
                          "binary_encoded_bytes": sum(len(c["out"]["d"]) for c in used if c["k"] == "binary" and c["out"])}
     r.log("tie: %d cases %s, %d mismatches %s" % (len(used), kinds, len(mism), mk))
     for k in ("bits", "utf8", "binary", "bytes"):
@@ -200,7 +201,7 @@ def run(r):
         vk.setdefault(key, []).append(v)
     r.coverage["search"] = {"evaluations": evals, "per_codec": per, "violations": len(viols), "violation_keys": {k: len(v) for k, v in vk.items()}}
     THEOREM = {"binary": "C18_from_binary_to_binary", "bits": "C18_unbits_bits", "base": "C18_antibase_base", "utf8": "C18_un_utf8_utf8",
-               "utf16": "C18_un_utf16_utf16", "bytes": "C18_decode_encode_bytes"}
+               "utf16": "C18_un_utf16_utf16", "bytes": "C18_decode_encode_bytes", "unbinary": "C18_from_binary_to_binary"}
     for key in sorted(vk):
         v = min(vk[key], key=lambda x: len(x["input"]))
         r.violation(key, "round trip through %s fails (%s): input %s: %s" % (v["violation"], v["prog"], v["input"][:300], v["detail"][:400]),
